@@ -291,3 +291,71 @@ func VerifH08d() {
 	_, err = p.Scan(999999)
 	vAssert("scan-unknown-oid-is-error", err == ErrUnknownOid)
 }
+
+// ---------------------------------------------------------------------------
+// H08s — structured Bind (C08): well-formed bodies built from symbolic
+// fields, so that the combinations the arbitrary-body harness cannot reach
+// within its byte bound are covered: up to 3 parameters, every admissible
+// format-code count (0, 1, n) with symbolic codes, any placement of NULLs.
+// ---------------------------------------------------------------------------
+func VerifH08s() {
+	nv := vChoose(vParam("PARAMS", 3) + 1)
+	var nf int
+	switch vChoose(3) {
+	case 0:
+		nf = 0
+	case 1:
+		nf = 1
+	default:
+		nf = nv
+	}
+	codes := make([]uint16, nf)
+	body := vCat(vCStr(nil), vCStr([]byte("a")), vU16(nf))
+	for i := range codes {
+		codes[i] = nondetU16()
+		body = append(body, byte(codes[i]>>8), byte(codes[i]))
+	}
+	body = append(body, vU16(nv)...)
+	null := make([]bool, nv)
+	vals := make([][]byte, nv)
+	for i := 0; i < nv; i++ {
+		null[i] = nondetBool()
+		if null[i] {
+			body = append(body, 0xFF, 0xFF, 0xFF, 0xFF)
+		} else {
+			vals[i] = nondetBytes(vChoose(2))
+			body = append(body, vU32(uint32(len(vals[i])))...)
+			body = append(body, vals[i]...)
+		}
+	}
+	body = append(body, vU16(0)...)
+
+	w := vNewWorld(nil, 64)
+	w.execMenu = 1
+	vAssert("set-ok", w.ses.Statements.Set(w.ctx, "a", w.mkStmt(1, 0)) == nil)
+	err := w.ses.handleBind(w.ctx, &buffer.Reader{Msg: body, MaxMessageSize: 64}, w.wr)
+	vAssert("bind-accepted", err == nil && vTypes(w.conn.out) == "2")
+	p, _ := w.ses.Portals.Get(w.ctx, "")
+	vAssert("portal-created", p != nil)
+	vAssert("parameter-count", len(p.parameters) == nv)
+	for i := 0; i < nv; i++ {
+		v := p.parameters[i].Value()
+		vAssert("null-iff-minus-one", (v == nil) == null[i])
+		if !null[i] {
+			vAssert("value-bytes", vEqBytes(v, vals[i]))
+		}
+		want := uint16(0)
+		if nf == 1 {
+			want = codes[0]
+		} else if nf > 1 {
+			want = codes[i]
+		}
+		vAssert("parameter-format-by-rule", uint16(p.parameters[i].Format()) == want)
+		if null[i] && nf > 1 {
+			vReach("null-with-positional-code")
+		}
+	}
+	if nf == 1 && nv >= 2 {
+		vReach("one-code-for-all")
+	}
+}
